@@ -71,6 +71,7 @@ struct Dom
 {
     using Model = Ord;
     static void init(Model&, World&) {}
+    static void visit(World&, Model&, const std::string&, Agg&) {}
     static std::string key_extra(const Model&) { return ""; }
     static std::vector<std::string> seeds(eng::engine_schema)
     {
